@@ -1081,7 +1081,15 @@ func (env *SpecEnv) evalCall(x *SExpr) Value {
 			}
 			if evn.MayLoop != nil {
 				if loopMayEmit(evn, n) {
-					return boolV(False)
+					proven := false
+					for _, p := range evn.Proven[n] {
+						if p == args[1].String() {
+							proven = true
+						}
+					}
+					if !proven {
+						return boolV(False)
+					}
 				}
 				continue
 			}
